@@ -1091,7 +1091,7 @@ func c43Accepts(col c43Class, v c43GoClass) bool {
 	case c43ColStr:
 		return v == c43GoStr
 	case c43ColInt:
-		return v == c43GoInt
+		return v == c43GoInt || v == c43GoBool // the number types convert bool to 0/1
 	case c43ColFloat:
 		return v == c43GoFloat || v == c43GoInt
 	case c43ColTime:
